@@ -272,7 +272,8 @@ func parseShort(s string, specs []*OptionSpec) ([]*Option, bool) {
 
 func findShort(r rune, specs []*OptionSpec) *OptionSpec {
 	for _, opt := range specs {
-		if r == opt.Short {
+		// Short == 0 means "no short form"; it must not match a NUL byte.
+		if opt.Short != 0 && r == opt.Short {
 			return opt
 		}
 	}
@@ -284,6 +285,10 @@ func findShort(r rune, specs []*OptionSpec) *OptionSpec {
 func parseLong(s string, specs []*OptionSpec) (*Option, bool) {
 	eq := strings.IndexRune(s, '=')
 	for _, opt := range specs {
+		if opt.Long == "" {
+			// No long form; must not match "--" or "--=value".
+			continue
+		}
 		if s == opt.Long {
 			return &Option{Spec: opt, Long: true}, opt.Arity == RequiredArgument
 		} else if eq != -1 && s[:eq] == opt.Long {
